@@ -98,7 +98,7 @@ pub fn items(tier: Tier) -> Vec<Item> {
         ("transparent", vec!["Display", "AsRefStr", "IntoStaticStr", "AsStaticStr"], "X(&'static str)", vec![("transparent", "transparent")]),
         ("default", vec!["EnumString", "Display", "ToString"], "X(String)", vec![("default", "default")]),
         ("default_with", vec!["EnumString"], "X(u8)", vec![("default_with = \"f\"", "default_with = \"f\""), ("default_with = \"f\"", "default_with = \"g\"")]),
-        ("ascii_case_insensitive", vec!["EnumString"], "X", vec![("ascii_case_insensitive", "ascii_case_insensitive"), ("ascii_case_insensitive = true", "ascii_case_insensitive = false"), ("ascii_case_insensitive", "ascii_case_insensitive = true")]),
+        ("ascii_case_insensitive", vec!["EnumString"], "X", vec![("ascii_case_insensitive", "ascii_case_insensitive"), ("ascii_case_insensitive = true", "ascii_case_insensitive = false"), ("ascii_case_insensitive", "ascii_case_insensitive = true"), ("ascii_case_insensitive = false", "ascii_case_insensitive"), ("ascii_case_insensitive = false", "ascii_case_insensitive = false")]),
         ("message", vec!["EnumMessage"], "X", vec![("message = \"a\"", "message = \"a\""), ("message = \"a\"", "message = \"b\"")]),
         ("detailed_message", vec!["EnumMessage"], "X", vec![("detailed_message = \"a\"", "detailed_message = \"b\"")]),
     ];
